@@ -1,3 +1,392 @@
 package checks
 
-func fsckServer(s *Srv) error { return nil }
+// Structural oracle over the logical disk (home blocks overlaid with the
+// journal), read through the server's own obj.Log.  It uses the
+// repository's own decoders (super, inode.Decode, the dirent decoder) so
+// that a consistent change of the on-disk format raises no alarm.
+
+import (
+	"bytes"
+	"fmt"
+	"sort"
+
+	"github.com/mit-pdos/go-journal/addr"
+	"github.com/mit-pdos/go-journal/buf"
+	"github.com/mit-pdos/go-journal/common"
+	"github.com/mit-pdos/go-nfsd/dir"
+	"github.com/mit-pdos/go-nfsd/fstxn"
+	"github.com/mit-pdos/go-nfsd/inode"
+	nt "github.com/mit-pdos/go-nfsd/nfstypes"
+)
+
+type FsckOpts struct {
+	ZeroFree       bool // item 7: every unmarked data block is all-zero
+	Exact          bool // item 8: marked blocks/inodes = owned/reachable ones
+	AllowHalfFreed bool // blocks still held by half-freed inodes are tolerated by item 8
+	Allocators     bool // the running server's allocators agree with the on-disk bitmaps
+}
+
+type FsckReport struct {
+	Problems    []string
+	NDirs       int
+	NFiles      int
+	NLinks      int
+	NIndirect   int // indirect + double-indirect blocks in use
+	HalfFreed   int // inodes with ShrinkSize beyond their size
+	OwnedBlocks int
+	MarkedData  int // data blocks marked in the bitmap
+	MarkedInos  int
+	FreeBlocks  uint64
+	FreeInodes  uint64
+	MaxDepth    int
+}
+
+func (r *FsckReport) bad(cat string, format string, a ...any) {
+	if len(r.Problems) < 40 {
+		r.Problems = append(r.Problems, "["+cat+"] "+fmt.Sprintf(format, a...))
+	}
+}
+
+func (r *FsckReport) Err() error {
+	if len(r.Problems) == 0 {
+		return nil
+	}
+	s := fmt.Sprintf("the on-disk structure is not a well-formed file system (%d problem(s)):", len(r.Problems))
+	for _, p := range r.Problems {
+		s += "\n    " + p
+	}
+	return fmt.Errorf("%s", s)
+}
+
+type fsckInode struct {
+	ip     *inode.Inode
+	blks   []common.Bnum
+	data   map[uint64]common.Bnum // logical block index -> block number
+	marked bool
+}
+
+func Fsck(fs *fstxn.FsState, opts FsckOpts) *FsckReport {
+	r := &FsckReport{}
+	sup := fs.Super
+	read := func(bn common.Bnum) []byte {
+		return fs.Txn.Load(addr.MkAddr(bn, 0), common.NBITBLOCK).Data
+	}
+	dataStart, maxBnum := sup.DataStart(), sup.MaxBnum()
+	inRange := func(bn common.Bnum) bool { return bn >= dataStart && bn < maxBnum }
+
+	// bitmaps
+	var bbits []byte
+	for i := uint64(0); i < sup.NBlockBitmap; i++ {
+		bbits = append(bbits, read(sup.BitmapBlockStart()+common.Bnum(i))...)
+	}
+	var ibits []byte
+	for i := uint64(0); i < sup.NInodeBitmap; i++ {
+		ibits = append(ibits, read(sup.BitmapInodeStart()+common.Bnum(i))...)
+	}
+	bit := func(m []byte, n uint64) bool { return m[n/8]&(1<<(n%8)) != 0 }
+
+	// inodes
+	ninode := uint64(sup.NInode())
+	inodes := make(map[uint64]*fsckInode)
+	owner := map[common.Bnum]string{}
+	own := func(bn common.Bnum, who string) bool {
+		if !inRange(bn) {
+			r.bad("pointer", "%s points to block %d, outside the data region [%d,%d)", who, bn, dataStart, maxBnum)
+			return false
+		}
+		if prev, dup := owner[bn]; dup {
+			r.bad("two-owners", "block %d belongs to both %s and %s", bn, prev, who)
+			return false
+		}
+		owner[bn] = who
+		if !bit(bbits, uint64(bn)) {
+			r.bad("unmarked", "block %d is in use by %s but free in the block bitmap", bn, who)
+		}
+		return true
+	}
+	perBlk := common.INODEBLK
+	for ib := uint64(0); ib*perBlk < ninode; ib++ {
+		first := common.Inum(ib * perBlk)
+		a := sup.Inum2Addr(first)
+		blk := read(a.Blkno)
+		if bytes.Equal(blk, zeroBlock) {
+			for i := uint64(0); i < perBlk; i++ {
+				inum := ib*perBlk + i
+				if inum >= 2 && bit(ibits, inum) {
+					r.bad("inode-bitmap", "inode %d is marked in use but is free (never initialised)", inum)
+				}
+			}
+			continue
+		}
+		for i := uint64(0); i < perBlk && ib*perBlk+i < ninode; i++ {
+			inum := ib*perBlk + i
+			ia := sup.Inum2Addr(common.Inum(inum))
+			ip := inode.Decode(buf.MkBufLoad(ia, common.INODESZ*8, blk), common.Inum(inum))
+			marked := bit(ibits, inum)
+			if inum < 2 {
+				if !marked {
+					r.bad("inode-bitmap", "reserved inode %d is not marked in use", inum)
+				}
+				if inum == 0 {
+					continue
+				}
+			}
+			live := ip.Kind != inode.NF3FREE
+			if inum >= 2 && live != marked {
+				r.bad("inode-bitmap", "inode %d: kind %d but bitmap bit %v", inum, ip.Kind, marked)
+			}
+			fi := &fsckInode{ip: ip, blks: ip.VerifBlks(), data: map[uint64]common.Bnum{}, marked: marked}
+			who := fmt.Sprintf("inode %d", inum)
+			nonzero := false
+			for _, b := range fi.blks {
+				if b != 0 {
+					nonzero = true
+				}
+			}
+			if !live && !nonzero && ip.ShrinkSize == 0 {
+				continue
+			}
+			inodes[inum] = fi
+			if live {
+				r.MarkedInos++
+			}
+			// block map
+			for k := uint64(0); k < inode.NDIRECT; k++ {
+				if b := fi.blks[k]; b != 0 && own(b, fmt.Sprintf("%s direct[%d]", who, k)) {
+					fi.data[k] = b
+				}
+			}
+			walkInd := func(root common.Bnum, base uint64, what string) {
+				if !own(root, fmt.Sprintf("%s %s", who, what)) {
+					return
+				}
+				r.NIndirect++
+				ib := read(root)
+				for s := uint64(0); s < inode.NBLKBLK; s++ {
+					b := common.Bnum(leU64(ib[s*8:]))
+					if b != 0 && own(b, fmt.Sprintf("%s %s slot %d", who, what, s)) {
+						fi.data[base+s] = b
+					}
+				}
+			}
+			if b := fi.blks[inode.INDIRECT]; b != 0 {
+				walkInd(b, inode.NDIRECT, "indirect block")
+			}
+			if b := fi.blks[inode.DINDIRECT]; b != 0 {
+				if own(b, who+" double-indirect root") {
+					r.NIndirect++
+					db := read(b)
+					for s := uint64(0); s < inode.NBLKBLK; s++ {
+						l1 := common.Bnum(leU64(db[s*8:]))
+						if l1 != 0 {
+							walkInd(l1, inode.NDIRECT+inode.NBLKBLK+s*inode.NBLKBLK, fmt.Sprintf("double-indirect[%d]", s))
+						}
+					}
+				}
+			}
+			// sizes agree with the blocks present
+			nblk := (ip.Size + BlockSize - 1) / BlockSize
+			limit := nblk
+			if ip.ShrinkSize > limit {
+				limit = ip.ShrinkSize
+				r.HalfFreed++
+			}
+			for idx, b := range fi.data {
+				if idx >= limit {
+					r.bad("size", "%s (kind %d, size %d, shrink position %d blocks) maps block %d at index %d, beyond its end", who, ip.Kind, ip.Size, ip.ShrinkSize, b, idx)
+					break
+				}
+			}
+			if !live && ip.ShrinkSize <= nblk && len(fi.data) > 0 {
+				r.bad("size", "free %s is not being shrunk but still maps %d block(s)", who, len(fi.data))
+			}
+			if live && ip.Nlink == 0 {
+				r.bad("inode", "%s is live (kind %d) with link count 0", who, ip.Kind)
+			}
+		}
+	}
+	r.OwnedBlocks = len(owner)
+
+	// the directory tree
+	reached := map[uint64]string{}
+	var walk func(inum, parent uint64, path string, depth int)
+	walk = func(inum, parent uint64, path string, depth int) {
+		if depth > r.MaxDepth {
+			r.MaxDepth = depth
+		}
+		fi := inodes[inum]
+		ip := fi.ip
+		r.NDirs++
+		if ip.Size%dir.DIRENTSZ != 0 {
+			r.bad("dir", "directory %s (inode %d) has size %d, not a multiple of the entry size", path, inum, ip.Size)
+		}
+		names := map[string]bool{}
+		sawDot, sawDotDot := false, false
+		for off := uint64(0); off+dir.DIRENTSZ <= ip.Size; off += dir.DIRENTSZ {
+			bn, ok := fi.data[off/BlockSize]
+			var ent []byte
+			if ok {
+				blk := read(bn)
+				ent = blk[off%BlockSize : off%BlockSize+dir.DIRENTSZ]
+			} else {
+				ent = zeroBlock[:dir.DIRENTSZ]
+			}
+			if leU64(ent[8:]) > dir.MAXNAMELEN {
+				r.bad("dir", "directory %s (inode %d): entry at offset %d has name length %d", path, inum, off, leU64(ent[8:]))
+				continue
+			}
+			child, name := dir.VerifDecodeDirEnt(ent)
+			if child == common.NULLINUM {
+				continue
+			}
+			if names[name] {
+				r.bad("dir", "directory %s (inode %d) contains the name %q twice", path, inum, trunc(name, 24))
+			}
+			names[name] = true
+			switch name {
+			case ".":
+				sawDot = true
+				if uint64(child) != inum {
+					r.bad("dir", "directory %s (inode %d): '.' points to inode %d", path, inum, child)
+				}
+				continue
+			case "..":
+				sawDotDot = true
+				if uint64(child) != parent {
+					r.bad("dotdot", "directory %s (inode %d): '..' points to inode %d, its parent is inode %d", path, inum, child, parent)
+				}
+				continue
+			}
+			cpath := path + "/" + trunc(name, 24)
+			if uint64(child) >= ninode {
+				r.bad("dir", "%s refers to inode %d, outside the inode table", cpath, child)
+				continue
+			}
+			cfi := inodes[uint64(child)]
+			if cfi == nil || cfi.ip.Kind == inode.NF3FREE {
+				r.bad("dir", "%s refers to inode %d, which is free", cpath, child)
+				continue
+			}
+			if prev, dup := reached[uint64(child)]; dup {
+				r.bad("tree", "inode %d has two names: %s and %s", child, prev, cpath)
+				continue
+			}
+			reached[uint64(child)] = cpath
+			switch cfi.ip.Kind {
+			case nt.NF3DIR:
+				walk(uint64(child), inum, cpath, depth+1)
+			case nt.NF3REG:
+				r.NFiles++
+			case nt.NF3LNK:
+				r.NLinks++
+			default:
+				r.bad("inode", "%s (inode %d) has kind %d", cpath, child, cfi.ip.Kind)
+			}
+		}
+		if !sawDot || !sawDotDot {
+			r.bad("dir", "directory %s (inode %d) lacks '.' or '..'", path, inum)
+		}
+	}
+	root := inodes[uint64(common.ROOTINUM)]
+	if root == nil || root.ip.Kind != nt.NF3DIR {
+		r.bad("tree", "the root inode is not a directory")
+	} else {
+		reached[uint64(common.ROOTINUM)] = "/"
+		walk(uint64(common.ROOTINUM), uint64(common.ROOTINUM), "", 0)
+	}
+	var orphans []uint64
+	for inum, fi := range inodes {
+		if fi.ip.Kind != inode.NF3FREE {
+			if _, ok := reached[inum]; !ok {
+				orphans = append(orphans, inum)
+			}
+		}
+	}
+	sort.Slice(orphans, func(i, j int) bool { return orphans[i] < orphans[j] })
+	for _, inum := range orphans {
+		r.bad("tree", "inode %d (kind %d, size %d) is live but has no name in the tree", inum, inodes[inum].ip.Kind, inodes[inum].ip.Size)
+	}
+
+	// bitmap accounting
+	for bn := dataStart; bn < maxBnum; bn++ {
+		if bit(bbits, uint64(bn)) {
+			r.MarkedData++
+			if _, owned := owner[bn]; !owned && opts.Exact {
+				r.bad("leak", "block %d is marked in use but belongs to nobody", bn)
+			}
+		} else {
+			r.FreeBlocks++
+			if opts.ZeroFree {
+				if blk := read(bn); !bytes.Equal(blk, zeroBlock) {
+					r.bad("free-not-zero", "free block %d is not all-zero (first non-zero byte at %d)", bn, firstNonZero(blk))
+				}
+			}
+		}
+	}
+	if opts.Exact && !opts.AllowHalfFreed {
+		for inum, fi := range inodes {
+			if fi.ip.Kind == inode.NF3FREE && (len(fi.data) > 0 || fi.ip.ShrinkSize > 0) {
+				r.bad("leak", "free inode %d still holds %d block(s) (shrink position %d) although no freeing is in progress", inum, len(fi.data), fi.ip.ShrinkSize)
+			}
+		}
+	}
+	for bn := common.Bnum(0); bn < dataStart; bn++ {
+		if !bit(bbits, uint64(bn)) {
+			r.bad("bitmap", "non-data block %d is not marked in use", bn)
+			break
+		}
+	}
+	for bn := uint64(maxBnum); bn < uint64(len(bbits))*8; bn++ {
+		if !bit(bbits, bn) {
+			r.bad("bitmap", "block number %d beyond the end of the disk is not marked in use", bn)
+			break
+		}
+	}
+	for inum := uint64(2); inum < ninode; inum++ {
+		if !bit(ibits, inum) {
+			r.FreeInodes++
+		}
+	}
+	if opts.Allocators {
+		// the allocator covers the whole bitmap, including numbers beyond the table (marked used)
+		var zb, zi uint64
+		for n := uint64(0); n < uint64(len(bbits))*8; n++ {
+			if !bit(bbits, n) {
+				zb++
+			}
+		}
+		for n := uint64(0); n < uint64(len(ibits))*8; n++ {
+			if !bit(ibits, n) {
+				zi++
+			}
+		}
+		if got := fs.Balloc.NumFree(); got != zb {
+			r.bad("allocator", "the running server's block allocator has %d free blocks, the on-disk bitmap %d", got, zb)
+		}
+		if got := fs.Ialloc.NumFree(); got != zi {
+			r.bad("allocator", "the running server's inode allocator has %d free inodes, the on-disk bitmap %d", got, zi)
+		}
+	}
+	return r
+}
+
+func leU64(b []byte) uint64 {
+	return uint64(b[0]) | uint64(b[1])<<8 | uint64(b[2])<<16 | uint64(b[3])<<24 |
+		uint64(b[4])<<32 | uint64(b[5])<<40 | uint64(b[6])<<48 | uint64(b[7])<<56
+}
+
+func firstNonZero(b []byte) int {
+	for i, x := range b {
+		if x != 0 {
+			return i
+		}
+	}
+	return -1
+}
+
+// fsckServer is the structural check applied to recovered crash images (items 1-6).
+func fsckServer(s *Srv) (*FsckReport, error) {
+	s.N.VerifWaitShrinkers()
+	r := Fsck(s.N.VerifFsState(), FsckOpts{})
+	return r, r.Err()
+}
